@@ -55,6 +55,9 @@ TP_CTORS = [
      "day_of_month": 1},
     {"year": 2000, "hour_of_day": 24},
     {"year": 1, "time_zone_hour": 0, "time_zone_minute": -45},
+    # a year before 0000 without expanded digits: its default str() raises
+    {"year": -1, "month_of_year": 12, "day_of_month": 31},
+    {"year": 12345, "day_of_year": 1},
 ]
 # truncated points built directly: their zone is *unknown* (the parsers give
 # truncated points the local zone unless told to default to unknown)
